@@ -15,7 +15,7 @@ class Prop(SeqProp):
     pid = "C18"
     model = "forkfile"
     anchors = ["windpyutils/files.py"]
-    quick_cases = 60
+    quick_cases = 150
     thorough_cases = 900
     rule = ("a file of 12 lines opened in a parent, then a tree of up to 6 really forked processes (children and "
             "grandchildren); every access is split into its seek and its read by wrappers around the handle inside the forked "
